@@ -43,7 +43,7 @@ def generate(rng, tier) -> dict:
             v = round(fold_dm + rng.uniform(-5, 20), 3) if kind == "dm" else fold_p * (1 + round(rng.uniform(-1e-3, 1e-3), 7))
         ops.append({"k": kind, "v": v})
     return {"nints": nints, "nbands": nbands, "nbins": nbins, "nchans_per_band": rng.choice([1, 2, 4]),
-            "layout": rng.choice(["C", "C", "C", "T", "F", "slice"]), "nsamples": 3600000 if long_obs else 100000,
+            "layout": rng.choice(["C", "C", "C", "T", "F", "slice"]), "header_dm": rng.choice([0.0, 0.0, 35.0, fold_dm]), "nsamples": 3600000 if long_obs else 100000,
             "fold_dm": fold_dm, "fold_period": fold_p, "ops": ops}
 
 
@@ -67,7 +67,7 @@ def make_cube(sc, ctx, layout="C"):
 
     nchans = sc["nbands"] * sc["nchans_per_band"]
     hdr = base_header(ctx, 1).new_header({"nchans": nchans, "fch1": 400.0, "foff": -80.0 / nchans, "tsamp": 0.001,
-                                          "nsamples": int(sc.get("nsamples", 100000)), "nbits": 32})
+                                          "nsamples": int(sc.get("nsamples", 100000)), "nbits": 32, "dm": float(sc.get("header_dm", 0.0))})
     ni, nb, nbin = sc["nints"], sc["nbands"], sc["nbins"]
     data = np.arange(ni * nb * nbin, dtype=np.float32).reshape(ni, nb, nbin)
     pristine = data.copy()  # returned as the reference: never shares memory with the cube
@@ -131,6 +131,11 @@ def execute(sc, ctx) -> None:
     twin, _ = make_cube(sc, ctx, "C")  # same values, C-contiguous, same history: the memory layout must not matter
     if layout != "C":
         ctx.probe("non-contiguous-cube")
+    if sc.get("header_dm", 0.0) != sc["fold_dm"]:
+        ctx.probe("header-dm-differs-from-folding-dm")
+    if cube.dm != sc["fold_dm"] or cube.period != sc["fold_period"]:
+        raise Violation("C17/construct/reported-values", f"a cube folded at dm={sc['fold_dm']} period={sc['fold_period']} reports dm={cube.dm} period={cube.period}",
+                        {"api": "FoldedData", "fold_dm": sc["fold_dm"], "header_dm": sc.get("header_dm", 0.0)})
     kinds = {o["k"] for o in sc["ops"]}
     single = len(kinds) == 1
     ctx.probe("dm-only" if kinds == {"dm"} else "period-only" if kinds == {"period"} else "mixed-dm-period")
